@@ -111,6 +111,9 @@ def eqlen1(ctx, prog, cfg, rule="EQLEN1", floor=3):
             if not ok:
                 Z2 = G.closure(b, extra_terms=[ld2, ls2])
                 ok = Z2.eq(ld2, ls2)
+            if not ok:
+                # equal as linear forms (the payload of `a.checked_sub(b)` is a - b)
+                ok = lin_key(lin(ld2)) == lin_key(lin(ls2))
             api = p.split("::")[-1]
             ctx.check(ok, rule, f.short, "%s: len(dst) == len(src)" % api, short_loc(f, b),
                       "`%s` is called with a destination of length `%s` and a source of length `%s`, which nothing makes equal: "
@@ -134,6 +137,11 @@ def lin(e, sign=1, acc=None):
     if acc is None:
         acc = {}
     e = mir.strip_casts(e)
+    cs_ = mir.checked_sub_payload(e)
+    if cs_ is not None:
+        lin(cs_[0], sign, acc)
+        lin(cs_[1], -sign, acc)
+        return acc
     if isinstance(e, tuple) and e and e[0] == "int":
         acc[1] = acc.get(1, 0) + sign * e[1]
     elif isinstance(e, tuple) and e and e[0] == "binop" and e[1] in ("Add", "Sub", "AddUnchecked", "SubUnchecked"):
@@ -237,6 +245,28 @@ VIEW_ROLES = {
 }
 
 
+def _deciding_edges(f, b):
+    """the branch edges (block, label) over which block b is reached, looking back through straight-line code (gotos and
+    calls that build the answer)"""
+    out, seen, st = [], set(), [b]
+    preds = f.preds(False)
+    while st:
+        x = st.pop()
+        for p in preds.get(x, []):
+            for (s_, kind, label) in f.succ_edges(p):
+                if s_ != x or kind != "normal":
+                    continue
+                k = f.term(p)["k"]
+                if k == "switch" and f._switch_const(f.term(p), p) is not None:
+                    k = "goto"  # a test of a flag that was just set to a constant decides nothing
+                if k in ("goto", "call", "drop") and p not in seen and p != 0:
+                    seen.add(p)
+                    st.append(p)
+                else:
+                    out.append((p, label))
+    return out
+
+
 def view2(ctx, prog, cfg, rule="VIEW2", only=None):
     """The two-piece views denote one circular interval of the backing array, lo -> hi: where the function builds
     the contiguous form it is ([lo, hi), empty), where it builds the wrapped form it is ([lo, N), [0, hi)) with the
@@ -258,6 +288,30 @@ def view2(ctx, prog, cfg, rule="VIEW2", only=None):
             if None in ps:
                 continue
             tuples.append((b, i, ps))
+        # the empty answer (empty, empty) is given only where the facts entail that the interval is empty: N == 0, or
+        # its logical length is zero (size == 0 for the contents, size == N for the free slots, iter.start >= iter.end
+        # for a drain's un-yielded part) — on every incoming path, each judged on its own facts
+        for (eb, ei, eps) in [(b, i, ps) for b, i, ps in tuples if ps[0][0] == "empty" and ps[1][0] == "empty"]:
+            from .props import c07 as _c07
+
+            Nn = ("cparam", guards.buffer_cparam(f, ("param", 1)) or "N")
+            if short.startswith("Drain::"):
+                lo_t = ("load", ("param", 1), ("iter", "start"), ("entry", ("M", "iter")))
+                hi_t = ("load", ("param", 1), ("iter", "end"), ("entry", ("M", "iter")))
+                what = "N == 0 or iter.start >= iter.end (or buf_size == 0)"
+            elif short == "CircularBuffer::slices_uninit_mut":
+                lo_t, hi_t, what = ("load", ("param", 1), ("size",), ("entry", ("M", "size"))), Nn, "N == 0 or size == N"
+            else:
+                lo_t, hi_t, what = guards.ZERO, ("load", ("param", 1), ("size",), ("entry", ("M", "size"))), "N == 0 or size == 0"
+            G_ = guards.Guards(f)
+            edges = _deciding_edges(f, eb) or [(eb, None)]
+            for (pb, label) in edges:
+                atoms = set(G_.facts_at(pb)) | (set(G_.edge_atoms(pb, label)) if label is not None else set())
+                Z = guards.Zone(f, atoms, [lo_t, hi_t, Nn])
+                ok_e = Z.contradiction or Z.eq0(Nn) or Z.le(hi_t, lo_t, 0)
+                ctx.check(ok_e, rule, short, "empty answer only for an empty interval", short_loc(f, pb),
+                          "`%s` answers (empty, empty) over an edge that establishes neither %s: elements (or free slots) that exist are "
+                          "not shown — a drain would neither keep nor destroy them" % (short, what), "edge facts entail " + what, cfg)
         contig = [(b, i, ps) for b, i, ps in tuples if ps[0][0] == "items" and ps[1][0] == "empty"]
         wrapped = [(b, i, ps) for b, i, ps in tuples if ps[0][0] == "items" and ps[1][0] == "items"]
         fmtl = lambda a: " + ".join(("%s" % v if k == 1 else ("%s*%s" % (v, mir.fmt(k, f)[:40]) if v != 1 else mir.fmt(k, f)[:40])) for k, v in a.items() if v != 0) or "0"
